@@ -1,42 +1,14 @@
-import UtlsVerif.SessionCtlLemmas
+import UtlsVerif.SessionCtlDefs
 /-!
-# SessionCtlTail — invariants of the `SessionCtl` machine, part 2
-
-Specifications of the last pieces of a build (`uApplyPatch`, `finalCheck`), of a build on a locked
-connection, and `sessionView`.
+# SessionCtlTail — specifications of the last pieces of a build (`uApplyPatch`, `finalCheck`) and glue to `inv`
 -/
 namespace SessionCtl
-
-/-- after `uLoadSession` (and `marshal`, which only writes `raw`). -/
-def afterLoad (s : St) : Bool :=
-  keysOk s && s.status == .notBuilt && !s.locked && !s.hsDone
-  && (s.state == .noSession || s.state == .ticketAllSet || s.state == .pskInit || s.state == .pskAllSet)
-  && (s.state != .pskInit || s.pRef.isSome)
-  && (s.state != .pskAllSet || pskSynced s)
-  && (s.state != .noSession || freshObjs s)
 
 theorem loadedOk_afterLoad (cfg : Cfg) (s s' : St) (h : mid cfg s = true) (h' : loadedOk cfg s s' = true) :
     afterLoad s' = true := by
   simp only [mid, loadedOk, sameFrame, Bool.and_eq_true, Bool.or_eq_true] at h h'
   cases hst : s.state <;> simp_all [afterLoad, keysOk, usable]
   · rcases h' with ⟨_, (h' | h') | h'⟩ <;> simp_all
-
-/-- the state after `uApplyPatch`, `finalCheck` and the status update. -/
-def finishedOk (s s' : St) : Bool :=
-  s'.locked && s'.status == .byUtls && s'.hsDone == s.hsDone && s'.hasCache == s.hasCache
-  && s'.tRef == s.tRef && s'.pRef == s.pRef && s'.lT == s.lT && s'.lP == s.lP && s'.raw == s.raw
-  && s'.sharesFilled == s.sharesFilled && s'.keysHeld == s.keysHeld && s'.helloShares == s.helloShares && s'.helloTS == s.helloTS
-  && sameObjs s s' && s'.helloTicket == s.helloTicket && s'.tracker == s.tracker
-  && (match s.state with
-      | .pskInit => s'.state == .pskAllSet && pskSynced s'
-          && (match s.pRef with
-              | some r => s'.hsSession == (s.pObj r).sess && s'.hsEarly == (s.pObj r).sess && s'.helloPsk == (s.pObj r).id
-              | none => false)
-      | st => s'.state == st && s'.hsSession == s.hsSession && s'.hsEarly == s.hsEarly && s'.helloPsk == s.helloPsk)
-
-/-- the last three steps of a full build. -/
-def finish (s : St) : R :=
-  (uApplyPatch s).andThen fun s => (finalCheck s).andThen fun s => okR { s with status := .byUtls }
 
 theorem finish_post (s : St) (h : afterLoad s = true) :
     (match finish s with
@@ -46,28 +18,24 @@ theorem finish_post (s : St) (h : afterLoad s = true) :
   rcases pRef with _ | _ | _ <;> cases state <;>
     simp_all [afterLoad, finish, uApplyPatch, setPskToUConn, finalCheck, okR, failR, R.andThen, uAssert, finishedOk, pskSynced, sameObjs, St.pObj]
 
+theorem tail_mid_noload (cfg : Cfg) (lr : LoadRes) (s : St) (h : mid cfg s = true) :
+    ∃ s', buildTail cfg false lr s = (s', none) ∧ tailOk false s s' = true := by
+  refine ⟨marshal (applyConfig s), ?_, ?_⟩
+  · simp [buildTail, okR, R.andThen]
+  · simp [tailOk, marshal, applyConfig, slots, sameObjs]
+    simp [mid] at h
+    simp_all
 
-/-- the session fields that must not change once the controller is locked: controller state, the
-owned extensions and every extension object, the session / secrets / ticket / identities of the
-handshake state, and the marshalled session extensions. -/
-def sessionView (s : St) : CState × Bool × Option Ref × Option Ref × TExt × TExt × PExt × PExt
-    × Option Src × Option Src × Option Src × Option Src × Option (Slot × Slot) :=
-  (s.state, s.locked, s.tRef, s.pRef, s.specT, s.userT, s.specP, s.userP,
-   s.hsSession, s.hsEarly, s.helloTicket, s.helloPsk, s.raw)
+theorem tailOk_inv (cfg : Cfg) (load : Bool) (s s' : St) (hg : cfg.golang = false) (hm : mid cfg s = true)
+    (ht : tailOk load s s' = true) : inv cfg s' = true := by
+  simp only [mid, Bool.and_eq_true, Bool.or_eq_true, beq_iff_eq] at hm
+  cases load <;> cases hst : s.state <;> simp_all [tailOk, inv, keysOk, usable, sameObjs]
+  · simp_all [freshObjs]
+  · rcases ht with ⟨_, _, (h1 | h2) | h3⟩ <;> simp_all [freshObjs]
 
-set_option maxHeartbeats 1000000 in
-/-- a build on a locked parrot connection changes nothing but `Hello.KeyShares` / `TicketSupported`. -/
-theorem tail_locked (cfg : Cfg) (load : Bool) (lr : LoadRes) (s : St) (hg : cfg.golang = false)
-    (h : inv cfg s = true) (hl : s.locked = true) :
-    (match buildTail cfg load lr s with
-     | (s', none) => inv cfg s' && sessionView s' == sessionView s && s'.hsDone == s.hsDone && s'.hasCache == s.hasCache
-                      && s'.status == s.status && s'.tracker == s.tracker && s'.keysHeld == s.keysHeld && s'.sharesFilled == s.sharesFilled
-                      && s'.lT == s.lT && s'.lP == s.lP && sameObjs s s' && s'.tRef == s.tRef && s'.pRef == s.pRef
-     | (_, some _) => false) = true := by
-  obtain ⟨hasCache, state, locked, tracker, calling, status, tRef, pRef, specT, userT, specP, userP, lT, lP, hsS, hsE, hT, hP, raw, ts, shares, filled, held, done⟩ := s
-  obtain ⟨golang, custom, cT, cP, skip, disabled⟩ := cfg
-  rcases pRef with _ | _ | _ <;> cases state <;> cases load <;> cases disabled <;> cases hasCache <;> cases status <;>
-    simp_all [inv, buildTail, applyConfig, uLoadSession, marshal, uApplyPatch, setPskToUConn, finalCheck, okR, failR, R.andThen, uAssert,
-      sessionView, slots, pskSynced, sameObjs, keysOk, usable, freshObjs, St.pObj, St.tObj]
+theorem tailFail_inv (cfg : Cfg) (s s' : St) (o : Outcome) (hg : cfg.golang = false) (hm : mid cfg s = true)
+    (ht : tailFail cfg s s' o = true) : inv cfg s' = true ∧ o.isAssertion = false := by
+  simp only [mid, Bool.and_eq_true, Bool.or_eq_true, beq_iff_eq] at hm
+  simp_all [tailFail, inv, keysOk, usable, sameObjs, freshObjs, Outcome.isAssertion]
 
 end SessionCtl
